@@ -35,6 +35,7 @@ for P in ${PROPS//,/ }; do
   echo "check $P $TIER -> exit $RC: $(grep -m1 -E 'violated|WATCHDOG|DATA RACE|fails:' /tmp/seeded/$NAME.check.$P.log | cut -c1-260)"
 done
 git -C /repo checkout -- . ; git -C /repo status --short
+git -C /verif checkout -- evidence   # evidence files describe runs on the unchanged tree only
 # keep the confirmed seed
 D=/verif/seeded/$NAME; mkdir -p $D
 cp $SRC/patch.diff $D/; cp $SRC/$DEMO $D/; [ -f $SRC/NOTES.md ] && cp $SRC/NOTES.md $D/
